@@ -45,6 +45,14 @@ def build_class(it, st: ast.ClassDef, fr):
             fv = it.make_function(s, body, owner=cv)
             if fv.kind == "setter":
                 continue
+            # functools.singledispatchmethod: `@base.register` implementations are collected on
+            # the base method; dispatch is on the class of the first argument (MRO order)
+            for d in s.decorator_list:
+                dn = _dotted(d.func if isinstance(d, ast.Call) else d)
+                if dn.split(".")[-1] == "singledispatchmethod":
+                    fv.dispatch_registry = []
+                elif dn.endswith(".register") and dn.split(".")[0] in cv.attrs and hasattr(cv.attrs[dn.split(".")[0]], "dispatch_registry"):
+                    cv.attrs[dn.split(".")[0]].dispatch_registry.append(fv)
             cv.attrs[s.name] = fv
             body.locals[s.name] = fv
         elif isinstance(s, ast.Expr) and isinstance(s.value, ast.Constant):
